@@ -85,7 +85,7 @@ func classifyPath(d *declInfo, e ast.Expr, defs map[types.Object]ast.Expr, depth
 		}
 		switch f.FullName() {
 		case "path/filepath.Join":
-			if len(x.Args) == 2 && isDir(x.Args[0]) {
+			if len(x.Args) == 2 && (isDir(x.Args[0]) || classifyPath(d, x.Args[0], defs, depth+1).kind == "dir") {
 				if isDigestName(d, x.Args[1], defs) {
 					return pathClass{"final", "Join(directory, digest file name)"}
 				}
@@ -97,7 +97,7 @@ func classifyPath(d *declInfo, e ast.Expr, defs map[types.Object]ast.Expr, depth
 				if o := objOf(d.pkg, sel.X); o != nil {
 					if def, ok := defs[o]; ok {
 						if ce, ok := def.(*ast.CallExpr); ok {
-							if g, _ := typeutil.Callee(info, ce).(*types.Func); g != nil && g.FullName() == "os.CreateTemp" && len(ce.Args) == 2 && isDir(ce.Args[0]) {
+							if g, _ := typeutil.Callee(info, ce).(*types.Func); g != nil && g.FullName() == "os.CreateTemp" && len(ce.Args) == 2 && (isDir(ce.Args[0]) || classifyPath(d, ce.Args[0], defs, depth+1).kind == "dir") {
 								if patternSafe(d, ce.Args[1], defs) {
 									return pathClass{"temp", "temporary file created inside the directory"}
 								}
